@@ -34,6 +34,7 @@ MANIFEST = {
     "note": "datetime.date is the reference calendar (tied by enumeration, not proof); CPython hash() itself is not modelled.",
     "technique": "Lean 4 proof over executable model + translator-regenerated fragments + exhaustive differential correspondence",
 }
+EXTRA_PROPS = ['GenTieC09']   # further property modules audited with this check (translator ties)
 ASSUMPTIONS = [
     "datetime.date (C code) is the reference calendar; the model's calendar is tied to it by enumeration of days, not by proof",
     "hash(): only the tuple that Period.__hash__ hashes is modelled, CPython's hash function itself is not",
